@@ -155,6 +155,10 @@ class WorkerLedger:
                 return False
         if self.used_specific():
             return None
+        if getattr(self, "reloaded", False):
+            # a profile was loaded again on this worker: whether the worker still charges the earlier
+            # reservation is not known to the reference, so "it fits" cannot be asserted
+            return None
         return True
 
 
@@ -442,6 +446,12 @@ def install():
             led = ctx.ledgers.get(id(self)) if ctx is not None else None
             r = orig(self, profile, loading_strategy)
             if led is not None:
+                if id(profile) in led.profiles:
+                    # a resident / pending profile is loaded again: what it occupies from now on is the new
+                    # strategy's demand (C01 uses that); whether the worker charges the old reservation on
+                    # top is left open, so the allocated == demand equality is not asserted for this worker
+                    led.reloaded = True
+                    ctx.fault("profile_reloaded")
                 led.profiles[id(profile)] = (profile, loading_strategy)
                 ctx.rec("LOAD", worker=led.name, profile=profile.name)
                 ctx.probe("profile_loaded")
@@ -654,7 +664,8 @@ def prepare_placement_check(ctx, ev):
                     if pl.worker_id is not None and w.id != pl.worker_id:
                         continue
                     led = ctx.ledgers.get(id(w))
-                    if led is None or led.used_specific() or any(rid != "any" for _, rid, _ in demand_of(strat)):
+                    if led is None or led.used_specific() or getattr(led, "reloaded", False) or \
+                            any(rid != "any" for _, rid, _ in demand_of(strat)):
                         fits2 = None
                         break
                     used = dict(led.used_by_type())
@@ -779,7 +790,7 @@ def check_ledgers(ctx):
             a = alloc_by_type.get(name, 0)
             if a > led.total_by_type[name]:
                 ctx.violate("C01", "allocated_exceeds_total", f"worker {led.name}: {name}", {"resource": name})
-            if a != used.get(name, 0):
+            if a != used.get(name, 0) and not (getattr(led, "reloaded", False) and a > used.get(name, 0)):
                 ctx.violate("C04", "held_iff_resident",
                             f"worker {led.name}: {a} of {name} allocated but resident tasks/batches/"
                             f"profiles demand {used.get(name, 0)} at t={ctx.now}",
@@ -790,7 +801,8 @@ def check_ledgers(ctx):
             used = led.used_by_type()  # only profiles can remain
             for name, tot in led.total_by_type.items():
                 avail = led.worker.resources.get_available_quantity(Resource(name=name, _id="any"))
-                if avail != tot - used.get(name, 0):
+                if avail != tot - used.get(name, 0) and not (getattr(led, "reloaded", False)
+                                                             and avail < tot - used.get(name, 0)):
                     ctx.violate("C04", "idle_not_full_capacity",
                                 f"no task running but worker {led.name} has {avail}/{tot} of {name} free",
                                 {"resource": name})
@@ -908,6 +920,15 @@ def check_start(ctx, s, task, t):
     elif s.first_release is not None and t < s.first_release:
         ctx.violate("C02", "started_before_release", f"{s.uname} started at {t}, released at "
                     f"{s.first_release}", {})
+    # the release time the task was created with (Task.release() overwrites `release_time` with the time
+    # it is called with, so a release that comes too early would otherwise hide itself)
+    irt = _us(getattr(task, "intended_release_time", None))
+    if irt is not None and irt >= 0:
+        ctx.probe("c02_intended_release_checked")
+        if t < irt:
+            ctx.violate("C02", "started_before_release",
+                        f"{s.uname} started at {t}, before the release time {irt} it was created with "
+                        f"(released at {s.first_release})", {"intended": True})
     par = ctx.parent_shadows(s)
     node = ctx.nodes.get(s.base, {}).get(s.node, {})
     if par:
